@@ -25,7 +25,7 @@ def rule_carry(rep):
         rule_rebase(sub, t, m)
         if RESAMPLERS[t]["fixed"] == "out":
             ni = m["final"].fields.get("needed_input_size")
-            dep = ni is not None and any(x.get("k") == "havoc" and ":idx" in x.get("why", "") for x in walk(ni))
+            dep = ni is not None and any(x.get("k") == "havoc" and x.get("why", "").endswith(":" + str(m["roles"]["idx"])) for x in walk(ni))
             rep.ob(R, "%s/needed-follows-position" % t, dep, "the next input request must be computed from the carried position (needed_input_size' = %s)" % (show(ni)[:100] if ni else None), loc(m["fn"]))
 
 
@@ -155,7 +155,7 @@ def run(rep):
     rep.guarded("R-C07-exact", rule_exact)
     rep.floor("R-C07-carry", 1 + 8 + 2)
     rep.floor("R-C07-gcd", 3 * 3 + 2)
-    rep.floor("R-C07-conserve", 9)
+    rep.floor("R-C07-conserve", 9 + 7)
     rep.floor("R-C07-exact", 4)
     rep.clause("R-C07-carry", "the fractional read position is carried between chunks (rebased by exactly the frames consumed) and the fixed-output input request follows it")
     rep.clause("R-C07-gcd", "with rate_in = g·a, rate_out = g·b the three FFT constructors give fft_size_in = chunks·a, fft_size_out = chunks·b with exact divisions, hence in·rate_out == out·rate_in; chunks is the exact ceiling division of the requested size; FftFixedInOut processes and reports exactly one block per call")
